@@ -1,5 +1,6 @@
 import McpModel.Base.Proto
 import McpModel.Order.Monitor
+import McpModel.Order.EphemeralBody
 /-!
 Driver for the engine `order` (C03, end-to-end half).  One case = one scenario between a real
 `mcp.Client` and a real `mcp.Server` over one transport, under virtual time.
@@ -37,8 +38,9 @@ once (`n=1`), nothing unknown is handled (`extra=0`), and — at `end`, per dire
 sequence must be the visible part of a run of `Order.step` (the invisible `write`/`disp`/`rel` labels
 are found by search: `disp`/`rel` eagerly, `write` lazily — right before the first event that is not enabled
 without it — with backtracking over which message is written, and, should that fail, by exhaustive
-backtracking bounded by a step budget; a message of a body is a `bsend` carrying its predecessors; client→server traffic of a stateless
-streamable server is checked against `Order.stepE`, one temporary session per message); otherwise
+backtracking bounded by a step budget; a message of a body is a `bsend` carrying its predecessors; client→server traffic of a sessionless
+streamable server — transports sl, slj, sn, snj and the raw peer's rs, rn — is checked against `Order.stepB`, one
+temporary session per POST, which is `Order.stepE` when every POST carries one message); otherwise
 `rejected=<dir>@<seq>`.
 Monitor side (`V`): the property itself, `Order.holdsOn` (proved to accept every model run:
 `Order.monitor_accepts_runs`), on the implementation's event sequence, plus "a message that was sent
@@ -142,7 +144,9 @@ def showAt : Option (Nat × Nat) → String
   | none => "-"
   | some (a, b) => s!"{a}@{b}"
 
-def stateless (tr : String) : Bool := tr.startsWith "sl"
+/-- Every POST is served by a temporary session of its own: a stateless `StreamableHTTPHandler` (`sl`, `slj`) or a
+stateful one whose server hands out no session ids (`ServerOptions.GetSessionID` returns "": `sn`, `snj`). -/
+def stateless (tr : String) : Bool := tr.startsWith "sl" || tr.startsWith "sn" || tr == "rs" || tr == "rn"
 
 /-- What the model says about one message record: exactly one handler run unless the sending call failed. -/
 def modelMsgObs (toks : List String) (impl : String) : String :=
@@ -167,7 +171,11 @@ def monitorMsg (st : St) (m : Msg) : Option String :=
   (recClause (m.toRec st.tr)).map fun
     | .ranTwice _ n => s!"C03: the handler of message {m.id} ({m.meth}) ran {n} times"
     | .neverSent _ => s!"C03: message {m.id} ({m.meth}) was handled but never sent"
-    | .f14NotDispatched _ => s!"C03: F14 notification acknowledged (202) on a stateless streamable server but never dispatched (message {m.id}, {m.meth})"
+    | .f14NotDispatched _ =>
+      if m.body != 0 then
+        s!"C03: sessionless-body-drop: a notification that travelled in a POST body with other messages (JSON-RPC batch) was accepted by a sessionless streamable server — the POST was answered — but never dispatched (message {m.id}, {m.meth})"
+      else
+        s!"C03: F14 notification acknowledged (202) on a stateless streamable server but never dispatched (message {m.id}, {m.meth})"
     | .notHandled _ => s!"C03: message {m.id} ({m.meth}) was sent without error but its handler never ran to completion"
     | _ => "C03: ?"
 
@@ -299,13 +307,14 @@ def search (kind : Nat → Kind) (order : List Nat) (ids : List Nat) (s : State)
     let r2 := searchAll kind order ids s evs pos 20000
     if r2.ok then (r2.pos, true) else (max r.pos r2.pos, false)
 
-/-- Ephemeral sessions: no invisible labels, the event sequence itself must be a run of `stepE`. -/
-def searchE (s : State) (evs : List (Nat × Ev)) (pos : Nat) : Nat × Bool :=
+/-- Ephemeral sessions: no invisible labels, the event sequence itself must be a run of `stepB` — which is `stepE`
+as long as no POST body carries several messages (`Order.stepB_eq_stepE`; only the raw peer sends such bodies). -/
+def searchE (kind : Nat → Kind) (s : State) (evs : List (Nat × Ev)) (pos : Nat) : Nat × Bool :=
   match evs with
   | [] => (pos, true)
   | (_, e) :: rest =>
-    match stepE s e.label with
-    | some s' => searchE s' rest (pos + 1)
+    match stepB kind s e.label with
+    | some s' => searchE kind s' rest (pos + 1)
     | none => (pos, false)
 
 /-- `none` = accepted; `some q` = the event with global sequence number `q` is where every attempt got stuck. -/
@@ -313,7 +322,7 @@ def acceptPair (ephemeral : Bool) (msgs : List Msg) (pair : Nat) : Option Nat :=
   let evs := eventsOf msgs pair
   let ids := (msgs.filter fun m => m.pair == pair).map (·.id)
   let order := (sortEvs ((msgs.filter fun m => m.pair == pair).filterMap fun m => m.enq.map fun q => (q.1, m.id))).map (·.2)
-  let r := if ephemeral then searchE init evs 0 else search (kindFn msgs) order ids init evs 0
+  let r := if ephemeral then searchE (kindFn msgs) init evs 0 else search (kindFn msgs) order ids init evs 0
   if r.2 then none else
     match evs[r.1]? with
     | some (q, _) => some q
